@@ -188,16 +188,22 @@ func coneAngles(c *Ctx, ctor *types.Func, name string, hemi float64) ([]coneAngl
 // followsParallels: a factor mentions a standard parallel, directly or inside an abbreviated
 // application (abbreviations keep the applications they stand for in symWideOf).
 func followsParallels(f string, depth int) bool {
-	if parallelSym.MatchString(f) {
-		return true
-	}
-	if depth > 8 {
-		return false
-	}
-	for _, h := range hashSym.FindAllString(f, -1) {
-		if full, ok := symWideOf[h]; ok && followsParallels(full, depth+1) {
+	seen := map[string]bool{}
+	var in func(s string) bool
+	in = func(s string) bool {
+		if parallelSym.MatchString(s) {
 			return true
 		}
+		for _, h := range hashSym.FindAllString(s, -1) {
+			if seen[h] {
+				continue
+			}
+			seen[h] = true
+			if full, ok := symWideOf[h]; ok && in(full) {
+				return true
+			}
+		}
+		return false
 	}
-	return false
+	return in(f)
 }
